@@ -149,6 +149,12 @@ func caseListSig(sw *spec.Switch) string {
 // checkSwitchProgram runs the first script for every value of every switch
 // operand in it (each case value and one value matching nothing).
 func checkSwitchProgram(k *h.Case, prog *spec.Program, cands []int, pins map[string]int, nBase int) bool {
+	return checkSwitchProgramX(k, prog, cands, pins, nBase, false)
+}
+
+// checkSwitchProgramX: with full=true the traces are compared with full
+// command texts and condition tests, and AutoVar operands are driven too.
+func checkSwitchProgramX(k *h.Case, prog *spec.Program, cands []int, pins map[string]int, nBase int, full bool) bool {
 	pr := layoutOf(k, prog, 0.15)
 	k.SetSource(pr.Src)
 	sc := scriptsOf(prog)[0]
@@ -170,12 +176,18 @@ func checkSwitchProgram(k *h.Case, prog *spec.Program, cands []int, pins map[str
 			return false
 		}
 		in := ref.New(sc.Body, prog.AutoVars)
+		if full {
+			in.Render = buildLabelModel(prog).renderCmd
+		}
 		vm := &asm.VM{F: f, Sec: sec}
 		for _, sw := range sws {
-			if sw.Auto != nil {
+			if sw.Auto != nil && !full {
 				continue
 			}
 			name := strings.Join(sw.Operand, " ")
+			if sw.Auto != nil {
+				name = ref.AutoVarName(sw.Auto, prog.AutoVars)
+			}
 			vals := []int{777777}
 			for _, c := range sw.Cases {
 				if !c.Default {
@@ -191,6 +203,9 @@ func checkSwitchProgram(k *h.Case, prog *spec.Program, cands []int, pins map[str
 					rt, vt := in.Run(st), vm.Run(st)
 					k.Count("vm_runs", 1)
 					a, bb := rt.Cmds(), vt.Cmds()
+					if full {
+						a, bb = normFull(rt), normFull(vt)
+					}
 					if len(vt.Problems) > 0 || !eqStrings(a, bb) {
 						msg := fmt.Sprintf("[optimize=%v] switch on %s = %d (case list %s): ", opt, name, v, caseListSig(sw))
 						if len(vt.Problems) > 0 {
